@@ -9,7 +9,7 @@ mkdir -p $W/sim
 (cd /verif/sim && tar cf - --exclude=target . ) | (cd $W/sim && tar xf -)
 sed -i "s#\"/repo/#\"$W/repo/#g" $W/sim/*/Cargo.toml
 export VERIF_SIM=$W/sim VERIF_REPO=$W/repo VERIF_EVIDENCE_DIR=$W/evidence VERIF_REPLAY_DIR=$W/replays
-ids="$@"; [ -z "$ids" ] && ids=$(ls /verif/seeded)
+ids="$@"; [ -z "$ids" ] && ids=$(ls /verif/seeded | grep -v "^_")
 ok=0; bad=0
 for id in $ids; do
   prop=$(python3 -c "import json;d=json.load(open('/verif/seeded/$id/meta.json'));print(d.get('regress_with', d['property']))")
